@@ -40,6 +40,110 @@ func init() {
 	check.Register("life", scnLife)
 	check.Register("authz", scnAuthz)
 	check.Register("actor", scnActor)
+	check.Register("didreg", scnDidReg)
+	check.Register("staking", scnStaking)
+	check.Register("faults", scnFaults)
+	check.Register("replica", scnReplica)
+	monitorFactories["C19"] = func() []world.Monitor { return []world.Monitor{&C19{}} }
+	monitorFactories["C20"] = func() []world.Monitor { return []world.Monitor{&C20{}} }
+	simpleJobs := func(prop, scn string, qn, tn int, qargs, targs map[string]string) func(string, int64) []check.Job {
+		return func(tier string, seed int64) []check.Job {
+			n, args := qn, qargs
+			if tier == "thorough" {
+				n, args = tn, targs
+			}
+			var jobs []check.Job
+			for i := 0; i < n; i++ {
+				jobs = append(jobs, check.Job{Prop: prop, Scenario: scn, Seed: seed*15485863 + int64(i)*7 + int64(len(prop)), Args: args})
+			}
+			return jobs
+		}
+	}
+	replicaJobs := func(prop string, quick, thorough []map[string]string) func(string, int64) []check.Job {
+		return func(tier string, seed int64) []check.Job {
+			list := quick
+			if tier == "thorough" {
+				list = thorough
+			}
+			var jobs []check.Job
+			for i, a := range list {
+				jobs = append(jobs, check.Job{Prop: prop, Scenario: "replica", Seed: seed*32452843 + int64(i)*11, Args: a})
+			}
+			return jobs
+		}
+	}
+	c01plans := "plain,plain-2,clock3600,clock-86400,noise-1,noise-2,restart7"
+	var c01thorough []map[string]string
+	for i, l := range []string{"life:mixed", "life:renewheavy", "life:timeouts", "life:migrate", "life:rewards", "staking", "staking", "authz", "actor", "didreg", "faults", "life:mixed", "staking", "didreg", "life:migrate", "faults"} {
+		a := map[string]string{"leader": l, "plans": c01plans + ",plain-3,noise-3", "ops": "150"}
+		if i%4 == 1 {
+			a["plans"] += ",racenoise"
+		}
+		if l == "authz" || l == "actor" {
+			a["rounds"] = "1"
+			delete(a, "ops")
+		}
+		c01thorough = append(c01thorough, a)
+	}
+	check.RegisterSpec(&check.Spec{Prop: "C01", Level: "exploration",
+		Rule: "a leader executes a seeded workload (lifecycle walk, staking/role walk, did registry walk, authorization matrix, fault walk) while its consensus request stream is recorded; follower processes replay the identical stream under perturbations that must not matter: another process (different map seed), wall clock +1 h and -1 day (virtual clock), CheckTx/Simulate/Query calls inserted between consensus calls, restarts; every InitChain/BeginBlock/DeliverTx/EndBlock/Commit response (code, data, gas, events, validator updates, app hash; log/info text excluded) is compared byte-wise with the leader's. A race-detector build replays one stream with Simulate/Query goroutines running concurrently; only reports whose access site is inside the repository count. A case is (perturbation kind, leader workload, restarts/kills bucket, noise yes/no); distinct_nontrivial counts distinct cases.",
+		Jobs: replicaJobs("C01",
+			[]map[string]string{
+				{"leader": "staking", "plans": c01plans + ",racenoise", "ops": "160"},
+				{"leader": "didreg", "plans": "plain,clock3600,clock-86400,noise-1", "ops": "120"},
+				{"leader": "life:mixed", "plans": "plain,plain-2,clock3600,noise-1", "ops": "30"},
+			}, c01thorough),
+		MinCases: map[string]int{"quick": 6, "thorough": 12},
+		Assumptions: []string{"only amd64 is available: cross-architecture floating point (Node.Reputation is float32) cannot be observed", "SDK-internal races (baseapp, params) are counted but not attributed to this repository"}})
+	c03plans := "restart1,restart3,crash1,crash2"
+	var c03thorough []map[string]string
+	for _, l := range []string{"staking", "staking", "staking", "didreg", "authz", "faults", "life:mixed", "life:renewheavy"} {
+		a := map[string]string{"leader": l, "plans": c03plans, "ops": "300", "fpar": "4"}
+		if l[:4] == "life" {
+			a["plans"] = "restart97,restart211,crash3"
+			a["ops"] = "60"
+		}
+		if l == "authz" {
+			a["rounds"] = "1"
+			delete(a, "ops")
+		}
+		c03thorough = append(c03thorough, a)
+	}
+	check.RegisterSpec(&check.Spec{Prop: "C03", Level: "fault_enumeration",
+		Rule: "crash points are enumerated over a recorded leader stream: a follower over an on-disk goleveldb is stopped and restarted in a NEW process after every committed height (restart1), after every third (restart3), and is killed in the middle of a block after every DeliverTx (crash1) / every second one (crash2), the block then being replayed from its BeginBlock as Tendermint does; leader workloads contain staking transactions that fail after the shares hook ran and out-of-gas aborts between the hook pair. Every response is compared with the uninterrupted leader's. A case is (plan, leader workload, restarts/kills bucket); distinct_nontrivial counts distinct cases; counters report restarts and kills actually performed.",
+		Jobs: replicaJobs("C03",
+			[]map[string]string{
+				{"leader": "staking", "plans": c03plans, "ops": "70"},
+				{"leader": "didreg", "plans": "restart1,crash1", "ops": "60"},
+			}, c03thorough),
+		MinCases: map[string]int{"quick": 4, "thorough": 8},
+		Assumptions: []string{"a restart is a new OS process over the same goleveldb directory; the leader runs in one process without interruption"}})
+	check.RegisterSpec(&check.Spec{Prop: "C19", Level: "exploration",
+		Rule:        "seeded sequences of report / recover messages by {three fishmen, ordinary node, non-node, provider} against stored shards with contents {matching, wrong order, wrong data id, wrong shard, the order's own commit id, shard of another provider, data id of another order, provider mismatch, duplicates, expired targets}, interleaved with block advance across 600-block penalty ticks and shard expiry; the oracle diffs the raw fault table, all balances, orders, shards and pledges around every message. A case is (message, reporter class / content class, accepted, table changed); distinct_nontrivial counts distinct cases.",
+		Jobs:        simpleJobs("C19", "faults", 4, 32, map[string]string{"ops": "150"}, map[string]string{"ops": "900"}),
+		MinCases:    map[string]int{"quick": 30, "thorough": 60},
+		Assumptions: []string{"fault rows are read raw from the node store (there is no export of them)"}})
+	check.RegisterSpec(&check.Spec{Prop: "C20", Level: "exploration",
+		Rule:        "seeded sequences of delegate / undelegate (partial, full) / redelegate / validator creation and self-unbonding by four nodes, two third-party delegators and up to three validators, pledge add/remove around the capacity threshold, status resets, staking transactions that fail after the shares hook (amount above balance) or run out of gas mid-message; after every transaction and block the role predicate (capacity >= threshold and own delegation / validator shares >= threshold) is recomputed from staking and pledge queries for every super node, and promotions are checked against the declared status. A case is (operation, number of super nodes after it) or (promotion/demotion cause); distinct_nontrivial counts distinct cases.",
+		Jobs:        simpleJobs("C20", "staking", 6, 48, map[string]string{"ops": "200"}, map[string]string{"ops": "1200"}),
+		MinCases:    map[string]int{"quick": 12, "thorough": 20},
+		Assumptions: []string{"the role predicate is recomputed from the staking keeper's delegation and validator records"}})
+	monitorFactories["C17"] = func() []world.Monitor { return []world.Monitor{NewC17()} }
+	check.RegisterSpec(&check.Spec{Prop: "C17", Level: "exploration",
+		Rule: "seeded sequences of binding / key-rotation with unbinding / payment-address updates by arbitrary accounts, with proofs {valid, signed by another key, stale, signed for another DID and resubmitted, old proof with a fresh timestamp field, eip155 valid/corrupt, malformed signature strings and account ids}; registry invariants are evaluated on the exported did state after every transaction and a transition oracle decides accepted bindings/rotations from proof validity known by construction. A case is (request kind / proof or creator class, accepted or rejected); distinct_nontrivial counts distinct cases.",
+		Jobs: func(tier string, seed int64) []check.Job {
+			n, ops := 4, "150"
+			if tier == "thorough" {
+				n, ops = 32, "1500"
+			}
+			var jobs []check.Job
+			for i := 0; i < n; i++ {
+				jobs = append(jobs, check.Job{Prop: "C17", Scenario: "didreg", Seed: seed*9973 + int64(i), Args: map[string]string{"ops": ops}})
+			}
+			return jobs
+		},
+		MinCases:    map[string]int{"quick": 20, "thorough": 30},
+		Assumptions: []string{"validity of every proof is known by construction from the request factory", "wall clock of the node equals block time (virtual clock)"}})
 	monitorFactories["C10"] = func() []world.Monitor { return []world.Monitor{&C10{}} }
 	c10life := lifeJobs("C10", 2, 24, nil)
 	check.RegisterSpec(&check.Spec{Prop: "C10", Level: "exploration",
